@@ -32,7 +32,9 @@
    For the same reason a single PARTITION may hold integers where the metadata
    says float: a float column that is float only because of missing values
    (map with unmatched keys, where, outer alignment) arrives as integers from a
-   partition in which nothing is missing.  The computed whole must still agree. *)
+   partition in which nothing is missing; likewise booleans where the metadata
+   says object (bool + missing value = object).  The computed whole must still
+   agree.                                                                      *)
 EXTENDS Naturals, Sequences, FiniteSets
 
 Kinds        == {"frame", "series", "index", "scalar"}
@@ -48,7 +50,9 @@ IsDescription(d) ==
 
 DtypesAgree(meta, obj, part) ==
   /\ Len(meta) = Len(obj)
-  /\ \A j \in DOMAIN meta : obj[j] = meta[j] \/ (part /\ meta[j] = "f" /\ obj[j] \in {"i", "u"})
+  /\ \A j \in DOMAIN meta : \/ obj[j] = meta[j]
+                             \/ (part /\ meta[j] = "f" /\ obj[j] \in {"i", "u"})
+                             \/ (part /\ meta[j] = "s" /\ obj[j] = "b")
 
 \* clause names for the whole computed object / for a computed partition
 Differ(meta, obj, part) ==
